@@ -205,15 +205,15 @@ fn c10_send_related() {
 // TIER: quick
 // TIMEOUT: 1500
 // DRIVES: Mutations::send, Mutations::add_entity, Mutations::add_component, Mutations::resize_related, Mutations::start_entity, EntityChunks::iter, EntityChunks::iter_flatten, can_pack, ChangeRanges::size_with_components_size, ClientTicks::register_mutate_message
-// BOUNDS: maximum message size 24, payload sizes from {4, 12, 26} (chunk = 2 + payload, header 4 or 5); scenarios (graphs + standalone, tracking): []+[] tracked; [[S]]+[S] tracked; []+[M, M] tracked; every message decoded by the reference decoder; stand-in maps CAP 4; unwind 30
+// BOUNDS: maximum message size 24, payload sizes from {4, 12, 26} (chunk = 2 + payload, header 4 or 5); scenarios (graphs + standalone, tracking): []+[] tracked; [[S]]+[S] tracked; []+[M, M] tracked (maximum size 32); every message decoded by the reference decoder; stand-in maps CAP 4; unwind 30
 #[kani::proof]
 #[kani::unwind(30)]
 #[kani::stub(<bytes::Bytes as core::ops::Drop>::drop, noop_bytes_drop)]
 #[kani::stub(log::max_level, log_off)]
 fn c10_send_tracking() {
     run_case(&[], &[], MAX, true);
-    run_case(&[&[S]], &[S], MAX, true);
-    let n = run_case(&[], &[M, M], MAX, true);
+    run_case(&[&[S]], &[S], 32, true);
+    let n = run_case(&[], &[M, M], 32, true);
     kani::cover!(n >= 2, "last scenario produced the expected number of messages");
     kani::cover!(true, "all scenarios executed");
 }
@@ -277,3 +277,36 @@ fn c10_send_mixed_more() {
     kani::cover!(true, "all scenarios executed");
 }
 
+
+// HARNESS: c10_tracking_reserves_count_size
+// PROPS: C10
+// TIER: quick
+// TIMEOUT: 900
+// DRIVES: Mutations::send, can_pack
+// BOUNDS: tracking on, maximum message size 24; one graph [4] + one standalone entity [4]: 12 + 5 header bytes = 17 <= 24
+// EXPECT: known finding F-C10a (two messages although everything fits into one)
+#[kani::proof]
+#[kani::unwind(30)]
+#[kani::stub(<bytes::Bytes as core::ops::Drop>::drop, noop_bytes_drop)]
+#[kani::stub(log::max_level, log_off)]
+fn c10_tracking_reserves_count_size() {
+    // F-C10a: 17 bytes fit into 24, yet two messages are sent.
+    let n = run_case(&[&[S]], &[S], MAX, true);
+    kani::cover!(n >= 1, "scenario executed");
+}
+
+// HARNESS: c10_tracking_overfills_message
+// PROPS: C10
+// TIER: quick
+// TIMEOUT: 900
+// DRIVES: Mutations::send, can_pack
+// BOUNDS: tracking on, maximum message size 24; two standalone entities [12, 12]: each 14 + 5 = 19 <= 24
+// EXPECT: known finding F-C10b (one message of 33 bytes although every entity fits)
+#[kani::proof]
+#[kani::unwind(30)]
+#[kani::stub(<bytes::Bytes as core::ops::Drop>::drop, noop_bytes_drop)]
+#[kani::stub(log::max_level, log_off)]
+fn c10_tracking_overfills_message() {
+    let m = run_case(&[], &[M, M], MAX, true);
+    kani::cover!(m >= 1, "scenario executed");
+}
